@@ -336,7 +336,7 @@ CHECKS["C13"] = dict(
          "closed and no Accept is outstanding; every started accept loop returned exactly once, with ErrServerClosed unless the listener "
          "was closed explicitly before; every channel's transport closed exactly once, active at most once and before inactive, inactive "
          "exactly once. Non-trivial = Shutdown ran while an accept-loop start or an accepted-but-not-yet-activated connection was held.",
-    required=["accept-in-flight", "overlap:accept-returned-a-connection-after-shutdown", "write-blocked-in-transport", "overlap:accept-loop-not-started", "overlap:accepted-not-yet-active", "shutdown:first", "shutdown:middle", "shutdown:last",
+    required=["slow-inactive-handler", "inactive-handler-closes-another-channel", "tcp-listener", "accept-in-flight", "overlap:accept-returned-a-connection-after-shutdown", "write-blocked-in-transport", "overlap:accept-loop-not-started", "overlap:accepted-not-yet-active", "shutdown:first", "shutdown:middle", "shutdown:last",
               "listener-closed-before-shutdown", "channels", "late-release", "inbound-handed", "slow-listen"],
     assumptions=["user code closes only channels that were handed out (activated)", "the holder is observed through its effects (every channel closed), not its map"],
 )
